@@ -1260,9 +1260,11 @@ def _run_allclose(
             )
 
         if _is_floating_dtype(expected_arr) or _is_floating_dtype(got_arr):
+            # Compare the value ONNX Runtime actually produced: narrowing it to
+            # the JAX dtype first can hide out-of-range or fractional results.
             if not np.allclose(
                 expected_arr,
-                got_arr.astype(expected_arr.dtype, copy=False),
+                got_arr,
                 rtol=rtol,
                 atol=atol,
                 equal_nan=True,
@@ -1274,9 +1276,7 @@ def _run_allclose(
                     f"Output {idx} mismatch (max abs diff {max_diff}, rtol={rtol}, atol={atol})",
                 )
         else:
-            if not np.array_equal(
-                expected_arr, got_arr.astype(expected_arr.dtype, copy=False)
-            ):
+            if not np.array_equal(expected_arr, got_arr):
                 return (False, f"Output {idx} mismatch (non-floating tensors differ)")
 
     return True, "Outputs match within tolerance."
